@@ -98,11 +98,12 @@ theorem laplacian_wf {m m' : MeshVal (List s)} (h : WF m) {name : String} {iters
       exact filterMap_length_of_all _ d hall
     · rfl
 
-theorem center_wf {m m' : MeshVal (List s)} (h : WF m) {name : String} (hm : m.center name = some m') : WF m' :=
+theorem center_wf {m m' : MeshVal (List s)} (h : WF m) {mn mx : s → s → s} {name : String}
+    (hm : MeshVal.center mn mx m name = some m') : WF m' :=
   modifyAttr_wf h (fun d => by simp) hm
 
-theorem normalize_wf {m m' : MeshVal (List s)} (h : WF m) {init : s} {name : String}
-    (hm : MeshVal.normalize init m name = some m') : WF m' :=
+theorem normalize_wf {m m' : MeshVal (List s)} (h : WF m) {init : s} {mx : s → s → s} {name : String}
+    (hm : MeshVal.normalize init mx m name = some m') : WF m' :=
   modifyAttr_wf h (fun d => by simp) hm
 
 end MeshVal
